@@ -717,6 +717,10 @@ class TorConfig:
                 try:
                     yield self.save()
                 except TorProtocolError as e:
+                    # Tor doesn't have that port: asking for it again
+                    # must not find it "already configured"
+                    if socks_config in self.SocksPort:
+                        self.SocksPort.remove(socks_config)
                     extra = ''
                     if socks_config.startswith('unix:'):
                         # XXX so why don't we check this for the
